@@ -125,8 +125,13 @@ class World(BaseWorld):
         rank = rc.choice([1, 2, 2, 2, 3])
         target = sysgen.gen_spec(rc, rank=rank, small=True, eta_max=0.3)
         types = target['types']
-        for p in target['pairs'].values():
+        for kk, p in target['pairs'].items():
             p['explicit_sigma'] = False
+            p.pop('potential_sigma_factor', None)
+            # tables computed for one grid go stale at every Domain change: keep some, not most
+            if p['omega']['cls'] == 'FromArray' and rc.random() < 0.6:
+                a, b = kk.split('|')
+                p['omega'] = {'cls': 'Gaussian', 'kw': {'sigma': 1.0, 'length': 10}} if a == b else {'cls': 'NoIntra', 'kw': {}}
         plan = simroot.gen_plan(st.get('solver'))
         n_unknowns = 128 * rank * rank
         user = simroot.gen_user_solver(rc, n_unknowns)
@@ -134,7 +139,7 @@ class World(BaseWorld):
             user = {'method': 'krylov', 'options': {'disp': False, 'maxiter': 100, 'line_search': rc.choice(['armijo', 'wolfe', None])}}
         dom = target['domain']
         gdom = [dom['length'], sysgen.domain_dr(dom)]
-        use_file = rc.random() < 0.25
+        use_file = rc.random() < 0.35
         # ---- establishing ops
         est = [{'op': 'set_domain', 'domain': dom}]
         if rc.random() < 0.5:
@@ -211,7 +216,7 @@ class World(BaseWorld):
     def gen_edit(self, ro, target, types, gdom, use_file):
         kinds = ['density', 'density', 'kT', 'diameter', 'potential', 'closure', 'omega', 'domain', 'domain_inplace', 'domain_inplace']
         if use_file:
-            kinds += ['write', 'write']
+            kinds += ['write', 'write', 'write', 'write']
         k = ro.choice(kinds)
         if k == 'density':
             t = ro.choice(types)
